@@ -13,12 +13,23 @@ import (
 // Returns false if num cannot be parsed into an int64 or float64.
 func castJSONNumber(num json.Number, intCallback intCallback, floatCallback floatCallback) (any, bool) {
 	if integer, err := num.Int64(); err == nil {
-		return intCallback(integer), true
+		return applyInt(integer, intCallback, floatCallback), true
 	} else if float, err := num.Float64(); err == nil {
 		return floatCallback(float), true
 	}
 
 	return nil, false
+}
+
+// applyInt passes x through intCallback, unless x is the minimum int64:
+// neither its negation nor its absolute value fits in an int64, so it is
+// passed through floatCallback as a float64 instead, which represents it
+// exactly.
+func applyInt(x int64, intCallback intCallback, floatCallback floatCallback) any {
+	if x == math.MinInt64 {
+		return floatCallback(float64(x))
+	}
+	return intCallback(x)
 }
 
 // getNodeInt32 extracts an int32 from node and returns it. Returns an error
